@@ -82,6 +82,8 @@ class _Gen:
                 "cleanup": [], "handler": []}
         if feat['failures'] and rng.random() < self.p_fail:
             node["outcome"] = "exc"
+            if rng.random() < 0.3:
+                node["exc_noargs"] = True
         if feat['inspect'] and rng.random() < 0.3:
             step = ["inspect", rng.choice(("parent", "parent", "top")) + ":"
                     + rng.choice(("list", "cycles", "topo", "stats",
@@ -286,3 +288,96 @@ def gen_scenario(seed, prof=None):
     top, feat = gen_tree(rng, prof)
     knobs = gen_knobs(rng, feat)
     return top, knobs, feat
+
+
+# ---------------------------------------------------------------- motifs
+# Small hand-designed shapes around an interleaving that random trees reach
+# only rarely; every parameter (durations, yields, window, flags) is seeded.
+
+def _job(nid, script, **kw):
+    node = {"id": nid, "kind": "job", "cls": "abstract", "critical": False,
+            "forever": False, "script": script, "outcome": "ret",
+            "cleanup": [], "handler": []}
+    node.update(kw)
+    return node
+
+
+def _sched(nid, members, edges, **kw):
+    node = {"id": nid, "kind": "sched", "cls": "Scheduler", "critical": False,
+            "forever": False, "window": None, "timeout": None,
+            "sd_timeout": 1.0, "verbose": False, "members": members,
+            "edges": edges, "build": "ctor"}
+    node.update(kw)
+    return node
+
+
+def motif_join_under_full_window(rng):
+    """
+    A (may raise, non-critical) and D finish a few loop iterations apart in
+    one instant; C requires both; the window is full and other jobs are queued,
+    so that C waits for a slot after it has been scheduled.
+    """
+    d = rng.choice(GRID)
+    k = rng.choice((0, 1, 2, 3, 4, 5))
+    n_queue = rng.choice((2, 3, 4))
+    a = _job("j1", [["sleep", d]],
+             outcome=rng.choice(("exc", "exc", "ret")),
+             cls=rng.choice(("abstract", "coro")))
+    dd = _job("j2", [["sleep", d]] + ([["yield", k]] if k else []))
+    gate = _job("j3", [["sleep", rng.choice((0.125, 0.25))]])
+    members = [a, dd, gate]
+    edges = []
+    for i in range(n_queue):
+        members.append(_job("j%d" % (4 + i),
+                            [["sleep", d + rng.choice((1.0, 2.0, 0.5))]]))
+        edges.append([2, 3 + i])
+    join = _job("j%d" % (4 + n_queue),
+                [["sleep", rng.choice((0.25, 0.5))]])
+    members.append(join)
+    edges += [[0, len(members) - 1], [1, len(members) - 1]]
+    # an unrelated regular job that outlasts everything else
+    members.append(_job("j%d" % (5 + n_queue), [["sleep", d + 4.0]]))
+    top = _sched("s1", members, edges, window=3,
+                 cls=rng.choice(("Scheduler", "PureScheduler")))
+    if rng.random() < 0.3:
+        top = _sched("s0", [top], [], cls="Scheduler")
+        top["members"][0]["cls"] = "Scheduler"
+    return top
+
+
+def motif_fanout_mixed_eligibility(rng):
+    """
+    x finishes; among its successors some are eligible at once, others still
+    wait for another requirement y (finishing later, or in the same instant a
+    few iterations apart); optionally under a window.
+    """
+    d = rng.choice(GRID)
+    later = rng.choice((0.0, 0.25, 0.5))
+    k = rng.choice((0, 1, 2, 3))
+    x = _job("j1", [["sleep", d]],
+             outcome=rng.choice(("ret", "ret", "exc")))
+    y = _job("j2", [["sleep", d + later]] + ([["yield", k]] if k else []))
+    members, edges = [x, y], []
+    n = rng.choice((2, 3, 4, 5))
+    for i in range(n):
+        members.append(_job("j%d" % (3 + i),
+                            [["sleep", rng.choice((0.25, 0.5))]]))
+        edges.append([0, 2 + i])
+        if rng.random() < 0.5:
+            edges.append([1, 2 + i])
+    top = _sched("s1", members, sorted(edges),
+                 window=rng.choice((None, None, 2, 3)),
+                 cls=rng.choice(("Scheduler", "PureScheduler")))
+    return top
+
+
+MOTIFS = (motif_join_under_full_window, motif_fanout_mixed_eligibility)
+
+
+def gen_motif(seed):
+    import random
+    rng = random.Random(seed)
+    top = rng.choice(MOTIFS)(rng)
+    feat = {"stalls": rng.random() < 0.1}
+    knobs = gen_knobs(rng, feat)
+    return top, knobs
